@@ -228,10 +228,12 @@ C06_Controller(X) ==
          kn == <<(X.pre.chan + ad.offNeg) % 16, ad.ccNeg>>
          w == IF cn THEN v ELSE Twice1(v)
          Has(k) == k \in DOMAIN X.ccv1
+         \* a bidirectional pair represents one position: the side the stick is not on is at 0
+         Quiet(k) == Has(k) => X.ccv1[k] = 0
      IN IF ad.bidi
           THEN IF w[1] < 0
-                 THEN IF Has(kn) THEN CCValueOK(X.ccv1[kn], <<-w[1], w[2]>>) ELSE sh[1] = 0
-                 ELSE IF Has(kp) THEN CCValueOK(X.ccv1[kp], w) ELSE sh[1] = 0
+                 THEN (IF Has(kn) THEN CCValueOK(X.ccv1[kn], <<-w[1], w[2]>>) ELSE sh[1] = 0) /\ (kp # kn => Quiet(kp))
+                 ELSE (IF Has(kp) THEN CCValueOK(X.ccv1[kp], w) ELSE sh[1] = 0) /\ (kp # kn => Quiet(kn))
           ELSE IF Has(kp) THEN CCValueOK(X.ccv1[kp], IF cn THEN <<v[1] + v[2], 2 * v[2]>> ELSE v) ELSE sh[1] = 0
 
 \* "0-16383 with 8192 as centre": the statement fixes the centre and the ends; between them both the
